@@ -10,6 +10,7 @@ import math
 import numpy as np
 
 from ..core import import_library
+from ..env import ENVIRONMENTS, excusable, hostile
 from ..probe import Probe, Reach, ResultKeeper, check_unmutated, snapshot_arrays
 
 WORKERS = {"quick": 1, "thorough": 16}
@@ -60,6 +61,13 @@ class HedgeMonitor:
         if Y.shape != X.shape:
             ctx.violation(f"{h}: result shape differs from operand shape", {"hedge": h, "x_shape": X.shape}, X.shape, Y.shape)
             return
+        ft = np.dtype(self.fl.settings.float_type)
+        narrow = ft != np.dtype(np.float64)
+        if narrow:
+            # the library works in its configured float type: the degree is what it becomes there, the formula is judged at
+            # that type's precision and the relations over the recorded table are left to the float64 runs
+            X = X.astype(ft).astype(float)
+            ctx.hit(f"float_type:{ft.name}")
         xs, ys = X.ravel(), Y.astype(float).ravel()
         n = xs.size
         ctx.hit(f"calls:{h}:{'scalar' if X.ndim == 0 else f'{X.ndim}d'}")
@@ -69,13 +77,20 @@ class HedgeMonitor:
             idx = set(self.sel.sample(range(n), 512)) | set(np.argsort(np.abs(xs - 0.5))[:32].tolist()) | set(range(48)) | set(range(n - 48, n))
             ctx.hit("elements_not_judged", n - len(idx))
         ref = REF[h]
-        tab = self.table[h] if self.table is not None else None
+        tab = self.table[h] if (self.table is not None and not narrow) else None
         for i in idx:
             v, y = float(xs[i]), float(ys[i])
             if not (0.0 <= v <= 1.0):
                 ctx.hit("out_of_domain:degree outside [0,1] or NaN")
                 continue
             ctx.evaluated()
+            if narrow:
+                e, eps = ref(v), float(np.finfo(ft).eps)
+                if not (abs(y - e) <= 8 * eps + 8 * eps * math.sqrt(abs(e))):
+                    ctx.violation(f"{h}: value differs from the documented formula", {"hedge": h, "x": v, "float_type": ft.name}, e, y)
+                elif not (0.0 <= y <= 1.0):
+                    ctx.violation(f"{h}: result outside [0,1]", {"hedge": h, "x": v, "float_type": ft.name}, "[0,1]", y)
+                continue
             if h in ("extremely", "seldom"):
                 ctx.hit(f"piece:{h}:{'x<0.5' if v < 0.5 else 'x==0.5' if v == 0.5 else 'x>0.5'}")
             e = ref(v)
@@ -158,6 +173,7 @@ def run(ctx):
     ctx.assumptions += ["formula tolerance 1e-15 absolute (sqrt and multiplication are correctly rounded)", "inverse pairs 1e-12 (+4e-16/(1-x) for seldom(extremely x), ill-conditioned next to 1), x >= 2^-500 for compositions that square first"]
     names = list(REF)
     funcs = {f"{CLASSES[h]}.hedge": getattr(fl, CLASSES[h]).hedge for h in names}
+    ctx.excuse = lambda mechanism, observed, note: excusable(observed)
     with Reach(funcs) as reach, Probe() as probe:
         mon = HedgeMonitor(ctx, fl)
         mon.install(probe)
@@ -230,6 +246,29 @@ def run(ctx):
                     if not np.array_equal(np.asarray(r1), keep) and h != "any":
                         ctx.violation(f"{h}: a returned result changes when the argument array is later modified (aliases its argument)", {"hedge": h}, keep, r1)
                 hedge.hedge(buf)
+        # the library under another floating-point type, and back: the same hedge objects, the same degrees as plain numbers and
+        # as batches, first at the narrow type, then at the default one (nothing remembered from the one may answer the other)
+        for i, rnd in ctx.cases("float-types", ctx.scale(6, 120)):
+            degrees = [rnd.choice([0.1, 0.3, 0.7, 0.9, 0.5, 1 / 3, rnd.random()]) for _ in range(6)] + [0.0, 1.0]
+            order = rnd.choice([("float16", "default"), ("float32", "default"), ("default", "float32", "default"), ("float16", "float32", "default")])
+            for ftype in order:
+                with hostile(fl, ftype, ctx):
+                    for h in names:
+                        for v in degrees:
+                            H[h].hedge(v)
+                            H[h].hedge(np.float64(v))
+                        H[h].hedge(np.array(degrees))
+                        H[h].hedge(np.array(degrees[:4]).reshape(2, 2))
+                        H[h].hedge(np.array(degrees[0]))
+        # the process in another state: warnings are errors, the library logs at DEBUG, other NumPy print options
+        for i, rnd in ctx.cases("environments", len(ENVIRONMENTS)):
+            X = np.array([rnd.random() for _ in range(40)] + [0.0, 1.0, 0.5, 5e-324, 1e-300, 1 - 1e-16])
+            with hostile(fl, ENVIRONMENTS[i], ctx):
+                for h in names:
+                    H[h].hedge(X)
+                    H[h].hedge(X[:12].reshape(3, 4))
+                    for v in X[-8:]:
+                        H[h].hedge(float(v))
         # large batches: sizes on both sides of every power of two from 2^12 to 2^17 (block-wise fast paths), 1-D and as a transposed
         # matrix; a sample of the elements is judged (always including both ends), and the inverse pairs go over the whole batch
         for i, rnd in ctx.cases("sizes", 1):
@@ -266,6 +305,7 @@ def run(ctx):
         reach.report(ctx)
     ctx.exhaustive = True
     ctx.extra["exhaustive_space"] = f"all x = k/2^{m}, k = 0..2^{m}, for each of the 6 hedges (plus non-exhaustive random doubles)"
+    ctx.require("float_type:float32", "float_type:float16", *[f"environment:{e}" for e in ENVIRONMENTS])
     for h in names:
         ctx.require(f"hook:{CLASSES[h]}.hedge", "event:buffer refilled in place", "layout:transposed", "layout:read-only row broadcast over a batch", "workload:ends of the scale (negative zero, subnormals)", "lambda hedge: evaluated", "workload:large batch", "law:results of earlier calls left alone")
     for h in ("extremely", "seldom"):
